@@ -105,6 +105,14 @@ Step(op, s, i, v, p, kd) ==
          {Out(s, i, InsertSeq(q, p, <<El(q[v + 1].v, Fresh)>>), p + 1, NoB)}
     [] op = "resizeown" /\ K = "array" /\ p >= 0 /\ v \in 0..(n - 1) ->                      \* resize(p, a[v])
          {Out(s, i, IF p <= n THEN SubSeq(q, 1, p) ELSE q \o Rep(El(q[v + 1].v, Fresh), p - n), NoRes, NoB)}
+    [] op = "appendrange" /\ K = "array" /\ v >= 0 /\ p >= 0 /\ v + p <= n ->                \* append(&a[v], p): a range of its own elements
+         {Out(s, i, q \o FreshCopy(SubSeq(q, v + 1, v + p)), NoRes, NoB)}
+    \* sortbig: List<int>::sort on a separate list of p items in the order v (0 descending, 1 ascending, 2 saw-tooth), run by a
+    \* thread with a small stack: b = 1 iff it returned an ascending permutation (all input orders, also long monotone ones)
+    [] op = "sortbig" -> {Out(s, i, q, NoRes, 1)}
+    \* poolsmall: PoolList / PoolMap of element types whose size is not a multiple of the pointer size (int, a 5 byte struct),
+    \* p appends each, run beside the variables: b = 1 iff every value is still there, in order (the pool's item stride)
+    [] op = "poolsmall" -> {Out(s, i, q, NoRes, 1)}
     [] op = "nop" -> {[kind |-> s.kind, c |-> s.c, r |-> NoRes, b |-> NoB]}
     \* both variables destroyed and recreated as empty lists (harness operation of the C04 check: lifetime balance)
     [] op = "fini" -> {[kind |-> <<"list", "list">>, c |-> << <<>>, <<>> >>, r |-> NoRes, b |-> NoB]}
@@ -186,7 +194,7 @@ Next == \E i \in 1..2 :
           \/ \E op \in OpsV, v \in Values : Do(op, i, v, 0, "")
           \/ \E op \in OpsP, p \in 0..MaxLen : Do(op, i, 0, p, "")
           \/ \E op \in OpsVP, v \in Values, p \in 0..MaxLen : Do(op, i, v, p, "")
-          \/ \E op \in {"insertown", "resizeown"}, v \in 0..MaxLen, p \in 0..MaxLen : Do(op, i, v, p, "")
+          \/ \E op \in {"insertown", "resizeown", "appendrange"}, v \in 0..MaxLen, p \in 0..MaxLen : Do(op, i, v, p, "")
           \/ DoSort(i)
 Spec == Init /\ [][Next]_vars
 ViewSt == st        \* `last` only records the transition just taken: states are identified by st (cfg: VIEW ViewSt)
